@@ -29,7 +29,7 @@ use {
 pub const FUND: u64 = 10_000;
 pub const COIN50: u64 = 5_000_000_000;
 const SLICES: usize = 40;
-const ZEROS: usize = 9;
+const ZEROS: usize = 12;
 const CBS: u32 = 8;
 
 // ---------------------------------------------------------------------------
@@ -45,6 +45,10 @@ pub enum In {
   Insc(usize),
   /// output k of the most recent earlier deviation transaction
   Prev(usize),
+  /// funding slice with an absolute index (not tied to the position)
+  Slice(usize),
+  /// zero-value funding output with an absolute index
+  ZeroAt(usize),
 }
 
 #[derive(Clone, Copy, Debug, PartialEq)]
@@ -156,6 +160,9 @@ pub const TEMPLATES: &[Template] = &[
   t!("reveal-zero-first-output", &[In::Own], &[(0, &[Env::Png])], ZERO_FIRST, F0, false),
   t!("reveal-all-to-fee", &[In::Own], &[(0, &[Env::Png])], ALL_FEE, Fee::Remainder, true),
   t!("reveal-cb-uncommon-sat", &[In::Cb], &[(0, &[Env::Png])], &[(Val::Sats(1), Spk::C), (Val::Rest, Spk::B)], F0, false),
+  // 13 inputs with differing values (funding slices and zero-value outputs interleaved), reveals spread over them
+  t!("reveal-13-inputs", &[In::Slice(30), In::ZeroAt(9), In::Slice(31), In::Slice(32), In::ZeroAt(10), In::Slice(33), In::Slice(34), In::ZeroAt(11), In::Slice(35), In::Slice(36), In::Slice(37), In::Slice(38), In::Slice(39)],
+     &[(1, &[Env::Png]), (4, &[Env::Png]), (8, &[Env::Png]), (12, &[Env::Png])], SPLIT, F0, false),
   // --- envelope kinds ---
   t!("reveal-dupfield", &[In::Own], &[(0, &[Env::DupField])], ONE_A, F0, false),
   t!("reveal-incomplete", &[In::Own], &[(0, &[Env::Incomplete])], ONE_A, F0, false),
@@ -480,6 +487,8 @@ impl Builder<'_> {
       In::Own => Some((OutPoint { txid: self.fan_txid(), vout: (2 * q) as u32 }, FUND)),
       In::Own2 => Some((OutPoint { txid: self.fan_txid(), vout: (2 * q + 1) as u32 }, FUND)),
       In::Zero => Some((OutPoint { txid: self.fan_txid(), vout: (SLICES + q) as u32 }, 0)),
+      In::Slice(i) => (i < SLICES).then(|| (OutPoint { txid: self.fan_txid(), vout: i as u32 }, FUND)),
+      In::ZeroAt(i) => (i < ZEROS).then(|| (OutPoint { txid: self.fan_txid(), vout: (SLICES + i) as u32 }, 0)),
       In::Cb => {
         let h = 2 + q;
         if h as u32 > CBS {
@@ -503,7 +512,7 @@ impl Builder<'_> {
   }
 
   fn build(&mut self, t: &Template, q: usize) -> Option<(Transaction, u64)> {
-    if q * 2 + 1 >= SLICES || q >= ZEROS {
+    if q * 2 + 1 >= 30 || q >= 9 {
       return None;
     }
     let mut ops = Vec::new();
@@ -1241,6 +1250,11 @@ pub const DENSE: &[(&str, DenseSpec)] = &[
     (&["reveal-png", "reveal-png"], "full"),
     (&["child-parent-a-b-a"], "full"),
     (&["child-parent-a-x-a", "child-of-two-parents"], "zero-then-full"),
+  ]),
+  ("in-batch-spend-then-fetched-inputs", &[
+    (&["reveal-png"], "full"),
+    (&["move-insc0", "reveal-zero-value-input", "reveal-png"], "full"),
+    (&["reveal-13-inputs", "move-insc0-behind-own"], "underpay-fees"),
   ]),
   ("dense-1", &[
     (&["reveal-png", "reveal-two-same-input"], "full"),
